@@ -8,14 +8,25 @@
    A write that is cut short leaves a torn tail, which the reader skips (ParseFile keeps the last
    line that parses).  Runs are numbered 1..R in start order; a status is its index 1..K.
    Queries are modelled as the code computes them after the fixes 417efc6 / a079ef0: latest = newest
-   file that holds a status; recent(n) = the n newest distinct runs that hold a status.            *)
+   file that holds a status; recent(n) = the n newest distinct runs that hold a status.
+   The store is used again after a crash (Recover: a fresh process; the interrupted run can be updated by hand, new
+   runs are recorded), and that process may die as well (MaxCrashes).  Two details of the code decide whether what is
+   acknowledged after a crash can be read back, each with a switch for the code before its fix:
+     FixTornAppend : a writer that finds the file without a final newline ends that line first (6bd9815); before, the
+                     next status was appended directly behind the torn tail and the line held two JSON texts
+     CompFirst     : when both copies of a run exist (killed between writing the compacted copy and unlinking the
+                     original) latest / recent read the compacted copy first, as FindByRequestID does (7e9167d);
+                     before, they read the original while updates went to the compacted copy                        *)
 EXTENDS Integers, Sequences, FiniteSets, TLC
 
-CONSTANTS R, K
+CONSTANTS R, K, MaxCrashes, FixTornAppend, CompFirst
 
 Runs == 1..R
 Kinds == {"orig", "comp"}
-NoFile == [exists |-> FALSE, lines |-> <<>>, torn |-> FALSE]
+\* lines: complete lines, 0 = a line that does not parse; tail: what follows the last newline: -1 nothing, 0 a fragment
+\* that does not parse, s > 0 a whole status that only lacks its newline (it parses: ParseFile reads an unterminated last line)
+NoFile == [exists |-> FALSE, lines |-> <<>>, tail |-> -1]
+NewFile == [exists |-> TRUE, lines |-> <<>>, tail |-> -1]
 
 VARIABLES disk,     \* [Runs \X Kinds -> file]
           pc,       \* idle | opened | c_create | c_write | c_unlink | closed | u_open | u_write | crashed
@@ -24,88 +35,109 @@ VARIABLES disk,     \* [Runs \X Kinds -> file]
           status,   \* value read by Compact's ParseFile / status to append by Update
           utarget,  \* file Update appends to
           acked,    \* [Runs -> Nat] highest acknowledged status index (0 = none)
-          completed \* runs whose Close was acknowledged
-vars == <<disk, pc, cur, wrote, status, utarget, acked, completed>>
+          completed,\* runs whose Close was acknowledged (or whose recorder is dead)
+          crashes
+vars == <<disk, pc, cur, wrote, status, utarget, acked, completed, crashes>>
 
 F(r, k) == disk[<<r, k>>]
 Init == /\ disk = [f \in Runs \X Kinds |-> NoFile]
         /\ pc = "idle" /\ cur = 0 /\ wrote = 0 /\ status = 0 /\ utarget = <<0, "orig">>
-        /\ acked = [r \in Runs |-> 0] /\ completed = {}
+        /\ acked = [r \in Runs |-> 0] /\ completed = {} /\ crashes = 0
 
 -----------------------------------------------------------------------------
 (* queries *)
-Parse(f) == IF f.exists /\ f.lines # <<>> THEN f.lines[Len(f.lines)] ELSE -1     \* -1: nothing that parses
+RECURSIVE LastGood(_)
+LastGood(l) == IF l = <<>> THEN -1 ELSE IF l[Len(l)] > 0 THEN l[Len(l)] ELSE LastGood(SubSeq(l, 1, Len(l) - 1))
+Parse(f) == IF ~f.exists THEN -1 ELSE IF f.tail > 0 THEN f.tail ELSE LastGood(f.lines)     \* -1: nothing that parses
+\* a writer opens the file and appends one status line
+AppendTo(f, st) == IF f.tail = -1 THEN [f EXCEPT !.lines = Append(@, st)]
+                   ELSE IF FixTornAppend THEN [f EXCEPT !.lines = Append(Append(@, f.tail), st), !.tail = -1]
+                   ELSE [f EXCEPT !.lines = Append(@, 0), !.tail = -1]            \* two texts on one line: neither parses
 Files == {f \in Runs \X Kinds : disk[f].exists}
 Good  == {f \in Files : Parse(disk[f]) # -1}
-Latest == IF Files = {} THEN 0                                                    \* "no status data"
-          ELSE IF Good = {} THEN -1
-          ELSE LET r == CHOOSE r \in {f[1] : f \in Good} : \A q \in {f[1] : f \in Good} : q <= r IN
-               \* both copies of the newest run may exist: either holds a status of that run
-               Parse(disk[CHOOSE f \in Good : f[1] = r])
 GoodRuns == {f[1] : f \in Good}
-RecentRuns(n) == {r \in GoodRuns : Cardinality({q \in GoodRuns : q > r}) < n}
+\* lookup by request id (and the file a manual update is appended to): compacted copy first
 Find(r) == IF Parse(F(r, "comp")) # -1 THEN Parse(F(r, "comp"))
            ELSE IF Parse(F(r, "orig")) # -1 THEN Parse(F(r, "orig")) ELSE -1
+\* what latest / recent show for a run
+Shown(r) == LET first == IF CompFirst THEN "comp" ELSE "orig"
+                second == IF CompFirst THEN "orig" ELSE "comp" IN
+            IF Parse(F(r, first)) # -1 THEN Parse(F(r, first)) ELSE Parse(F(r, second))
+Latest == IF Files = {} THEN 0                                                    \* "no status data"
+          ELSE IF Good = {} THEN -1
+          ELSE Shown(CHOOSE r \in GoodRuns : \A q \in GoodRuns : q <= r)
+RecentRuns(n) == {r \in GoodRuns : Cardinality({q \in GoodRuns : q > r}) < n}
 
 -----------------------------------------------------------------------------
 Open == /\ pc \in {"idle", "closed"} /\ cur < R
         /\ cur' = cur + 1 /\ wrote' = 0
-        /\ disk' = [disk EXCEPT ![<<cur + 1, "orig">>] = [exists |-> TRUE, lines |-> <<>>, torn |-> FALSE]]
+        /\ disk' = [disk EXCEPT ![<<cur + 1, "orig">>] = NewFile]
         /\ pc' = "opened"
-        /\ UNCHANGED <<status, utarget, acked, completed>>
+        /\ UNCHANGED <<status, utarget, acked, completed, crashes>>
 Write == /\ pc = "opened" /\ wrote < K
          /\ disk' = [disk EXCEPT ![<<cur, "orig">>].lines = Append(@, wrote + 1)]
          /\ wrote' = wrote + 1 /\ acked' = [acked EXCEPT ![cur] = wrote + 1]
-         /\ UNCHANGED <<pc, cur, status, utarget, completed>>
+         /\ UNCHANGED <<pc, cur, status, utarget, completed, crashes>>
 CRead == /\ pc = "opened"                                   \* Close -> Compact -> ParseFile(original)
          /\ status' = Parse(F(cur, "orig"))
          /\ pc' = IF Parse(F(cur, "orig")) = -1 THEN "closed" ELSE "c_create"
          /\ completed' = IF Parse(F(cur, "orig")) = -1 THEN completed \cup {cur} ELSE completed
-         /\ UNCHANGED <<disk, cur, wrote, utarget, acked>>
+         /\ UNCHANGED <<disk, cur, wrote, utarget, acked, crashes>>
 CCreate == /\ pc = "c_create"
-           /\ disk' = [disk EXCEPT ![<<cur, "comp">>] = [exists |-> TRUE, lines |-> <<>>, torn |-> FALSE]]
-           /\ pc' = "c_write" /\ UNCHANGED <<cur, wrote, status, utarget, acked, completed>>
+           \* OpenOrCreateFile: a copy left behind by an earlier, interrupted compaction is opened for append
+           /\ disk' = [disk EXCEPT ![<<cur, "comp">>] = IF @.exists THEN @ ELSE NewFile]
+           /\ pc' = "c_write" /\ UNCHANGED <<cur, wrote, status, utarget, acked, completed, crashes>>
 CWrite == /\ pc = "c_write"
-          /\ disk' = [disk EXCEPT ![<<cur, "comp">>].lines = <<status>>]
-          /\ pc' = "c_unlink" /\ UNCHANGED <<cur, wrote, status, utarget, acked, completed>>
+          /\ disk' = [disk EXCEPT ![<<cur, "comp">>] = AppendTo(@, status)]
+          /\ pc' = "c_unlink" /\ UNCHANGED <<cur, wrote, status, utarget, acked, completed, crashes>>
 CUnlink == /\ pc = "c_unlink"
            /\ disk' = [disk EXCEPT ![<<cur, "orig">>] = NoFile]
            /\ pc' = "closed" /\ completed' = completed \cup {cur}
-           /\ UNCHANGED <<cur, wrote, status, utarget, acked>>
+           /\ UNCHANGED <<cur, wrote, status, utarget, acked, crashes>>
 \* manual status update of a completed run: appended to the file FindByRequestID returns
-UOpen(r) == /\ pc \in {"closed"} /\ r \in completed /\ Find(r) # -1 /\ Find(r) < K + 1
+UOpen(r) == /\ pc \in {"closed"} /\ r \in completed /\ Find(r) # -1 /\ Find(r) < K + 2
             /\ utarget' = IF Parse(F(r, "comp")) # -1 THEN <<r, "comp">> ELSE <<r, "orig">>
             /\ status' = Find(r) + 1
-            /\ pc' = "u_write" /\ UNCHANGED <<disk, cur, wrote, acked, completed>>
+            /\ pc' = "u_write" /\ UNCHANGED <<disk, cur, wrote, acked, completed, crashes>>
 UWrite == /\ pc = "u_write"
-          /\ disk' = [disk EXCEPT ![utarget].lines = Append(@, status)]
+          /\ disk' = [disk EXCEPT ![utarget] = AppendTo(@, status)]
           /\ acked' = [acked EXCEPT ![utarget[1]] = status]
-          /\ pc' = "closed" /\ UNCHANGED <<cur, wrote, status, utarget, completed>>
-\* the process dies; a write in flight may leave a torn tail
-Crash == /\ pc \notin {"crashed"}
-         /\ pc' = "crashed"
+          /\ pc' = "closed" /\ UNCHANGED <<cur, wrote, status, utarget, completed, crashes>>
+\* the process dies; a write in flight may leave a torn tail: a fragment, or the whole line but for its newline
+Tear(f, st) == {[f EXCEPT !.tail = 0], [f EXCEPT !.tail = st]}
+Crash == /\ pc \notin {"crashed"} /\ crashes < MaxCrashes
+         /\ pc' = "crashed" /\ crashes' = crashes + 1
          /\ \/ UNCHANGED disk
-            \/ /\ pc = "opened" /\ wrote < K
-               /\ disk' = [disk EXCEPT ![<<cur, "orig">>].torn = TRUE]
-            \/ /\ pc = "c_write"
-               /\ disk' = [disk EXCEPT ![<<cur, "comp">>].torn = TRUE]
-            \/ /\ pc = "u_write"
-               /\ disk' = [disk EXCEPT ![utarget].torn = TRUE]
+            \/ /\ pc = "opened" /\ wrote < K /\ F(cur, "orig").tail = -1
+               /\ \E g \in Tear(F(cur, "orig"), wrote + 1) : disk' = [disk EXCEPT ![<<cur, "orig">>] = g]
+            \/ /\ pc = "c_write" /\ F(cur, "comp").tail = -1
+               /\ \E g \in Tear(F(cur, "comp"), status) : disk' = [disk EXCEPT ![<<cur, "comp">>] = g]
+            \/ /\ pc = "u_write" /\ disk[utarget].tail = -1
+               /\ \E g \in Tear(disk[utarget], status) : disk' = [disk EXCEPT ![utarget] = g]
          /\ UNCHANGED <<cur, wrote, status, utarget, acked, completed>>
+\* a fresh process takes over: the interrupted run has no recorder any more (it can be updated by hand)
+Recover == /\ pc = "crashed"
+           /\ pc' = "closed" /\ completed' = IF cur > 0 THEN completed \cup {cur} ELSE completed
+           /\ UNCHANGED <<disk, cur, wrote, status, utarget, acked, crashes>>
 
-Next == Open \/ Write \/ CRead \/ CCreate \/ CWrite \/ CUnlink \/ (\E r \in Runs : UOpen(r)) \/ UWrite \/ Crash
+Next == Open \/ Write \/ CRead \/ CCreate \/ CWrite \/ CUnlink \/ (\E r \in Runs : UOpen(r)) \/ UWrite \/ Crash \/ Recover
 Spec == Init /\ [][Next]_vars
 
 -----------------------------------------------------------------------------
 (* C07, evaluated on what the queries answer after a crash *)
 Crashed == pc = "crashed"
+AtRest == pc \in {"crashed", "closed"}
 Ackd == {r \in Runs : acked[r] > 0}
 C07_Interrupted == Crashed => \A r \in Runs : acked[r] > 0 => Find(r) >= acked[r]
 C07_LatestNoErr == Crashed /\ Ackd # {} => Latest > 0
 C07_LatestIsNewestAcked == Crashed /\ Ackd # {} =>
                              LET top == CHOOSE r \in Ackd : \A q \in Ackd : q <= r IN Latest >= acked[top] \/ \E r \in Runs : r > top /\ F(r, "orig").exists
-TopN(n) == {r \in Ackd : Cardinality({q \in Ackd : q > r}) < n}
-C07_RecentKeeps(n) == Crashed => TopN(n) \subseteq RecentRuns(n)
+\* (a newer run whose first status was in flight and reads back whole may take a place: it holds a status)
+TopN(n) == {r \in Ackd : Cardinality({q \in Ackd \cup GoodRuns : q > r}) < n}
+C07_RecentKeeps(n) == AtRest => TopN(n) \subseteq RecentRuns(n)
 C07_Recent1 == C07_RecentKeeps(1)
 C07_Recent2 == C07_RecentKeeps(2)
+\* ... and the same for what is acknowledged AFTER a crash: whenever no operation is in flight, the lookup and the
+\* latest / recent queries show every run with a status no older than the last acknowledged one
+C07_AckedIsShown == AtRest => \A r \in Runs : acked[r] > 0 => Find(r) >= acked[r] /\ Shown(r) >= acked[r]
 =============================================================================
